@@ -676,12 +676,18 @@ class SmallVectorBase : private Alloc {
       // Besides, if 'this' is large, let's not shrink to small size and keep our dynamic memory for now.
       // To sum-up, in this context, we do not touch our capacity, only move and relocates o's elements
       SizeType oSize = o._capa;
+      if (!isSmall() && _capa < oSize) {
+        // 'this' may own a dynamic buffer smaller than the inline capacity (adopted from an amc::vector or through
+        // swap2): it cannot receive o's elements, release it and come back to the inline storage
+        destroyFreeStorage();
+        _capa = 0;
+        _size = inplaceCapa;
+      }
       move_n(o._storage.ptr(), oSize, begin(), size());
       // Go through setSize on both sides: the 'full' small encoding (_size == kMaxSize) has to be entered / left
       // according to the new sizes, whatever the previous fill of each operand was
       o.setSize(0);
       setSize(oSize);
-      (void)inplaceCapa;
     } else {
       // Clear our stuff before stealing o's guts
       destroyFreeStorage();
